@@ -16,5 +16,7 @@ ENGINES = [
      "Go test binaries built from /repo's working tree through a go.work + -overlay; recorders emit ndjson traces, replayers execute TLC-generated behaviours"},
 ]
 TRUST = "Trusted: TLC evaluator, Json/IOUtils community modules, harness projection functions (shared by both binding directions), go -overlay."
+# checks that are finished, reviewed and registered (others are work in progress)
+ENABLED = ["C07", "C17"]
 CHECKS = {}   # filled from the MANIFEST dict of each bin/checks/cNN.py
 NOT_APPLICABLE = {}
